@@ -16,7 +16,10 @@ limitations under the License.
 
 package ahtree
 
-import "crypto/sha256"
+import (
+	"crypto/sha256"
+	"math/bits"
+)
 
 func VerifyInclusion(iproof [][sha256.Size]byte, i, j uint64, iLeaf, jRoot [sha256.Size]byte) bool {
 	if i > j || i == 0 || (i < j && len(iproof) == 0) {
@@ -96,9 +99,55 @@ func VerifyConsistency(cproof [][sha256.Size]byte, i, j uint64, iRoot, jRoot [sh
 		return iRoot == jRoot
 	}
 
+	// the number of proof terms is determined by the two sizes: with any other number of terms the
+	// same hashes would connect the root of a prefix of ANOTHER size to jRoot
+	if len(cproof) != consistencyProofLen(i, j) {
+		return false
+	}
+
 	ciRoot, cjRoot := EvalConsistency(cproof, i, j)
 
 	return iRoot == ciRoot && jRoot == cjRoot
+}
+
+// consistencyProofLen is the number of terms of the consistency proof between the trees with i and
+// with j leaves (1 <= i <= j), i.e. len(AHtree.ConsistencyProof(i, j)): it follows the recursion of
+// the generator, counting one term wherever the generator emits one
+func consistencyProofLen(i, j uint64) int {
+	return consistencyProofLenAt(i, j, bits.Len64(j-1))
+}
+
+func consistencyProofLenAt(i, j uint64, height int) int {
+	n := 0
+
+	for h := height - 1; h >= 0; h-- {
+		if (j-1)&(1<<h) > 0 {
+			k := (j - 1) >> h << h
+
+			if i <= k {
+				n++
+
+				if i < k {
+					n += consistencyProofLenAt(i, k, h)
+				}
+
+				if i == k {
+					n++
+				}
+
+				return n
+			}
+
+			n++
+
+			if i == j {
+				n++
+				return n
+			}
+		}
+	}
+
+	return n
 }
 
 func EvalConsistency(cproof [][sha256.Size]byte, i, j uint64) ([sha256.Size]byte, [sha256.Size]byte) {
